@@ -251,8 +251,8 @@ func c03(c *Ctx) {
 	// ---- R03.3 -----------------------------------------------------------------------
 	k := c.errorsPropagated("R03.3", []string{"internal/state", "internal/backend"}, func(cs engine.CallSite) (string, bool) {
 		cc := cs.Common()
-		if cc.IsInvoke() && engine.IsNamed(cc.Value.Type(), "db", "Transaction") && isWriteMethod(cc.Method.Name()) {
-			return "tx." + cc.Method.Name(), true
+		if cc.IsInvoke() && engine.IsNamed(cc.Value.Type(), "db", "Transaction") && isWriteMethod(engine.MethodName(cc.Method)) {
+			return "tx." + engine.MethodName(cc.Method), true
 		}
 		return "", false
 	}, "a failed statement inside a transaction that still commits leaves a partial effect")
@@ -630,7 +630,7 @@ func c03writeBeforeAnnounce(c *Ctx) {
 						continue
 					}
 					for _, w := range writes {
-						if cc.Method.Name() == w && engine.InstrDominates(cs2.Instr, cs.Instr) {
+						if engine.MethodName(cc.Method) == w && engine.InstrDominates(cs2.Instr, cs.Instr) {
 							ok = true
 						}
 					}
@@ -832,7 +832,7 @@ func c03remoteAndLocalAddAgree(c *Ctx) {
 			if cs.Instr.Parent() != f {
 				continue
 			}
-			if cc.IsInvoke() && cc.Method.Name() == "AddMessagesToMailbox" && !engine.IsNamed(cc.Value.Type(), "db", "Transaction") {
+			if cc.IsInvoke() && engine.MethodName(cc.Method) == "AddMessagesToMailbox" && !engine.IsNamed(cc.Value.Type(), "db", "Transaction") {
 				remote = append(remote, cs.Instr)
 			}
 			if sc := cc.StaticCallee(); sc != nil && engine.ShortName(sc) == "AddMessagesToMailbox" && engine.RecvNamed(sc) == nil && len(cc.Args) >= 4 {
@@ -895,7 +895,8 @@ func c03flagWritesSelectFromTheIndexRead(c *Ctx) {
 			if cs.Instr.Parent() != f || !cc.IsInvoke() || !engine.IsNamed(cc.Value.Type(), "db", "Transaction") {
 				continue
 			}
-			if m := cc.Method.Name(); m != "AddFlagToMessages" && m != "RemoveFlagFromMessages" {
+			// a per-flag write, recognised by its shape: (ctx, ids []InternalMessageID, flag string) error
+			if sig := cc.Signature(); sig.Params().Len() != 3 || sig.Results().Len() != 1 || sig.Params().At(2).Type().String() != "string" {
 				continue
 			}
 			var ids ssa.Value
@@ -979,9 +980,14 @@ func c03flagWritesSelectFromTheIndexRead(c *Ctx) {
 				engine.Backward(rs, engine.FlowOpts{Loads: true}, func(x ssa.Value) bool {
 					switch t := x.(type) {
 					case *ssa.Extract:
-						if call, ok := t.Tuple.(*ssa.Call); ok && call.Call.IsInvoke() && call.Call.Method.Name() == "GetMessagesFlags" {
-							any = true
-							return false
+						// the read is recognised by its shape (a method of the transaction that returns the message-flag
+						// rows), not by its name
+						if call, ok := t.Tuple.(*ssa.Call); ok && call.Call.IsInvoke() && t.Index == 0 &&
+							(engine.IsNamed(call.Call.Value.Type(), "db", "Transaction") || engine.IsNamed(call.Call.Value.Type(), "db", "ReadOnly")) {
+							if sl, isSl := t.Type().Underlying().(*types.Slice); isSl && engine.IsNamed(sl.Elem(), "db", "MessageFlagSet") {
+								any = true
+								return false
+							}
 						}
 						bad = "a result of " + t.Tuple.String()
 						return false
@@ -994,7 +1000,7 @@ func c03flagWritesSelectFromTheIndexRead(c *Ctx) {
 					}
 					return true
 				})
-				R.Check(bad == "" && any, "R03.11", c.name(f)+"|"+cc.Method.Name()+" picks from the rows read", P.Pos(cs.Pos()), "the ids are picked out of the unfiltered result of tx.GetMessagesFlags", "the ids written to are picked out of something other than the rows tx.GetMessagesFlags returned for the request ("+bad+"): messages of the set that a pre-filter dropped keep their flags in the index although the command changes them")
+				R.Check(bad == "" && any, "R03.11", c.name(f)+"|"+engine.MethodName(cc.Method)+" picks from the rows read", P.Pos(cs.Pos()), "the ids are picked out of the unfiltered result of tx.GetMessagesFlags", "the ids written to are picked out of something other than the rows tx.GetMessagesFlags returned for the request ("+bad+"): messages of the set that a pre-filter dropped keep their flags in the index although the command changes them")
 			}
 		}
 	}
